@@ -9,6 +9,7 @@ import Orda.Proofs.ListTxNet
 import Orda.Proofs.MapTxNet
 import Orda.Proofs.DocTxNet
 import Orda.Proofs.TxNetCreate
+import Orda.Proofs.FlatTxNetCreate
 namespace Orda.Props.C09
 open Orda
 
@@ -170,5 +171,50 @@ theorem created_transactional_net_converges {cuid : Nat → String} {n : Nat} {n
     (i j : Nat) (hi : i < net.nodes.length) (hj : j < net.nodes.length) (di dj : Doc) (hdi : net.nodes[i].r.state = .doc di)
     (hdj : net.nodes[j].r.state = .doc dj) : ASim di dj ∧ di.view.canon = dj.view.canon :=
   created_dtx_quiescent_converged h hq i j hi hj di dj hdi hdj
+
+/-! ## Lists, maps and counters with transactions, the system as it really starts (Proofs/FlatTxNetCreate) -/
+
+/-- LIST: a failing user transaction on any node of any reachable state of the created system changes nothing anywhere -/
+theorem created_list_failed_transaction_changes_nothing_anywhere {cuid : Nat → String} {n : Nat} {net : LNet.Net}
+    (h : FTxNetC.L.ReachC cuid n net) {i : Nat} {nd : LNet.Node} (hi : net.nodes[i]? = some nd) (tag : String) (calls : List Call)
+    (stopOnErr failAtEnd : Bool) (c : Nat) (herr : (nd.r.txCalls tag calls stopOnErr failAtEnd).2.2 = .err c) {net' : LNet.Net}
+    (hnet : net' = ⟨net.nodes.set i { nd with r := (nd.r.txCalls tag calls stopOnErr failAtEnd).1 }, net.log⟩) :
+    net'.log = net.log ∧ ∀ (j : Nat) (nd' : LNet.Node), net'.nodes[j]? = some nd' →
+      ∃ ndj, net.nodes[j]? = some ndj ∧ nd'.r.opId = ndj.r.opId ∧ nd'.r.state = ndj.r.state ∧
+        nd'.r.buffer = ndj.r.buffer ∧ nd'.r.cp = ndj.r.cp ∧ nd'.pushed = ndj.pushed ∧ nd'.pulled = ndj.pulled :=
+  FTxNetC.L.created_ltx_failed_transaction_changes_nothing h hi tag calls stopOnErr failAtEnd c herr hnet
+
+/-- LIST: with transactions as steps and the creating client: at quiescence all replicas hold the same list state -/
+theorem created_list_transactional_net_converges {cuid : Nat → String} {n : Nat} {net : LNet.Net} (h : FTxNetC.L.ReachC cuid n net)
+    (hq : LNet.Quiescent net) (i j : Nat) (hi : i < net.nodes.length) (hj : j < net.nodes.length) :
+    net.nodes[i].r.state = net.nodes[j].r.state :=
+  FTxNetC.L.created_ltx_quiescent_converged h hq i j hi hj
+
+/-- MAP / COUNTER: a failing user transaction changes nothing anywhere -/
+theorem created_flat_failed_transaction_changes_nothing_anywhere {typ : DtType} {cuid : Nat → String} {n : Nat} {net : MNet.Net}
+    (hf : MNet.Flat typ) (h : FTxNetC.M.ReachC typ cuid n net) {i : Nat} {nd : MNet.Node} (hi : net.nodes[i]? = some nd) (tag : String)
+    (calls : List Call) (stopOnErr failAtEnd : Bool) (c : Nat) (herr : (nd.r.txCalls tag calls stopOnErr failAtEnd).2.2 = .err c)
+    {net' : MNet.Net}
+    (hnet : net' = ⟨net.nodes.set i { nd with r := (nd.r.txCalls tag calls stopOnErr failAtEnd).1 }, net.log⟩) :
+    net'.log = net.log ∧ ∀ (j : Nat) (nd' : MNet.Node), net'.nodes[j]? = some nd' →
+      ∃ ndj, net.nodes[j]? = some ndj ∧ nd'.r.opId = ndj.r.opId ∧ nd'.r.state = ndj.r.state ∧
+        nd'.r.buffer = ndj.r.buffer ∧ nd'.r.cp = ndj.r.cp ∧ nd'.pushed = ndj.pushed ∧ nd'.pulled = ndj.pulled :=
+  FTxNetC.M.created_mtx_failed_transaction_changes_nothing hf h hi tag calls stopOnErr failAtEnd c herr hnet
+
+/-- COUNTER: with transactions and the creating client: at quiescence all replicas hold the same value -/
+theorem created_counter_transactional_net_converges {cuid : Nat → String} {n : Nat} {net : MNet.Net}
+    (h : FTxNetC.M.ReachC .counter cuid n net) (hq : MNet.Quiescent net) (i j : Nat) (hi : i < net.nodes.length)
+    (hj : j < net.nodes.length) : net.nodes[i].r.state = net.nodes[j].r.state :=
+  FTxNetC.M.created_ctx_quiescent_converged h hq i j hi hj
+
+/-- MAP: with transactions and the creating client: at quiescence all replicas answer every read alike -/
+theorem created_map_transactional_net_converges {cuid : Nat → String} {n : Nat} {net : MNet.Net}
+    (h : FTxNetC.M.ReachC .map cuid n net) (hq : MNet.Quiescent net) (i j : Nat)
+    (hi : i < net.nodes.length) (hj : j < net.nodes.length) (mi mj : LwwMap)
+    (hmi : net.nodes[i].r.state = .map mi) (hmj : net.nodes[j].r.state = .map mj) :
+    (∀ k, mi.get k = mj.get k) ∧ mi.size = mj.size ∧
+    (∀ k, alFind k mi.live = alFind k mj.live) ∧ mi.live.Perm mj.live ∧ MNet.sortedView mi = MNet.sortedView mj ∧
+    MNet.jsonView mi = MNet.jsonView mj :=
+  FTxNetC.M.created_mtx_quiescent_converged h hq i j hi hj mi mj hmi hmj
 
 end Orda.Props.C09
